@@ -550,7 +550,12 @@ class PteraTransformer(NodeTransformer):
                 wrapped_body.append(first)
                 body = body[1:]
 
-        new_body += self.visit_body(node.body)
+        stmts = node.body
+        if not isinstance(stmts[-1], (ast.Return, ast.Raise)):
+            # Falling off the end returns None: make that return explicit
+            # so that it is reported like any other
+            stmts = [*stmts, ast.copy_location(ast.Return(value=None), stmts[-1])]
+        new_body += self.visit_body(stmts)
         new_body = self.delimit(
             new_body,
             ["#enter"],
